@@ -211,7 +211,16 @@ where
     type Values = Timeline::Target;
 
     fn advance(&mut self, elapsed_seconds: f32) {
-        self.state_duration += Duration::from_secs_f32(elapsed_seconds);
+        // Astronomically large (but valid) amounts of time saturate instead of panicking; negative
+        // or NaN values still panic in `from_secs_f32` as before.
+        let elapsed = Duration::try_from_secs_f32(elapsed_seconds).unwrap_or_else(|_| {
+            if elapsed_seconds > 0.0 {
+                Duration::MAX
+            } else {
+                Duration::from_secs_f32(elapsed_seconds)
+            }
+        });
+        self.state_duration = self.state_duration.saturating_add(elapsed);
         self.update_current_values();
     }
 
